@@ -74,6 +74,12 @@ class Operation(ABC):
     # this will reduce some overhead on checking for shared memory
     can_return_view: bool = False
 
+    # NumPy treats a Python scalar next to arrays as "weak" (it does not widen the
+    # result) in its ufuncs and in `numpy.where`; functions that first convert each
+    # operand to an array (einsum, stack, concatenate, ...) treat it as a float64 /
+    # int64 operand.
+    weak_python_scalars: bool = False
+
     # Stores the input tensors that the operation will backprop through.
     variables: Tuple["Tensor", ...]
 
@@ -253,6 +259,7 @@ class Ufunc(Operation, ABC):
 
     numpy_ufunc: np.ufunc
     _supports_where: bool = True
+    weak_python_scalars: bool = True
 
 
 class UnaryUfunc(Ufunc, ABC):
